@@ -22,8 +22,8 @@ C["C09"] = ("Lock typestate on the real handlers: every Lock is of a mutex not a
                "This is the sequential, per-request part of C09 only. Linearizability, freedom from data races on state not named in a guarded-by assertion (e.g. the UePool insertion race in NewCHFUe) and deadlock across requests are outside what per-function contracts decide.")
 C["C10"] = ("Until released, the reference designates its session: Create registers the new record under the returned reference (and the Location ends in it), Update/Release act on ue.Cdr[reference] and on no other key (frame post-condition over all other keys); the reference is computed under the subscriber lock.",
                "Uniqueness of the reference string itself (ueId + consumer + sequence number concatenation) is not decided: strings are an uninterpreted sort with ground axioms, strconv.Itoa injectivity and concatenation ambiguity are not expressible. Observed, not decided: 'ue'+'a1'+'23' and 'ue'+'a12'+'3' collide.")
-C["C11"] = ("No-panic (nil dereference, index, slice bounds, division, type assertion) obligations on Create/Update/Release, OpenCDR/UpdateCDR/CloseCDR, dumpCdrFile, sessionChargingReservation, getUnitCost, cdrConvert and the Diameter clients, for every request content; every rejection is a 4xx problem with a body and exactly one response is written per request (HandleChargingdata*, RechargePut over an assumed gin response sink); the subscriber lock is released on every path (a rejected request does not wedge the subscriber).",
-               "Assumed: answers of the Diameter peers carry the AVPs the server contracts produce (assumed ensures); JSON decoding above the handlers (openapi.Deserialize, the three ChargingdataPost-style wrappers) is not under contract; NewCHFUe admits only imsi- SUPIs (verified), which the slicing in OpenCDR and sessionChargingReservation relies on.")
+C["C11"] = ("No-panic (nil dereference, index, slice bounds, division, type assertion) obligations on Create/Update/Release, OpenCDR/UpdateCDR/CloseCDR, dumpCdrFile, sessionChargingReservation, getUnitCost, cdrConvert and the Diameter clients, for every request content; every rejection is a 4xx problem with a body and exactly one response is written per request (HandleChargingdata*, RechargePut, and the three route functions ChargingdataPost / ...UpdatePost / ...ReleasePost that read and decode the body: 500 for an unreadable body, 400 with a problem body for one that does not decode, otherwise the handler's single answer; all over an assumed gin response sink); the subscriber lock is released on every path (a rejected request does not wedge the subscriber).",
+               "Assumed: answers of the Diameter peers carry the AVPs the server contracts produce (assumed ensures); openapi.Deserialize is an assumed contract (any value of the request type - any member absent - and any error), the JSON decoder itself is not verified; NewCHFUe admits only imsi- SUPIs (verified), which the slicing in OpenCDR and sessionChargingReservation relies on.")
 C["C12"] = ("Create: response iff no problem, echoes the invocation sequence number, Location == url prefix + reference; Update: 200 body echoes the sequence number with a time stamp; Release: nil (204) on success; every problem is 4xx; an unknown session reference is rejected with no effect (no peer request, no reservation/record/session-table change: frame post-conditions); NotifyRecharge hands exactly one notification naming the rating group to the registered URI; the HTTP handlers answer 201/200 with a body, 204 without, or a 4xx problem body.",
                "gin is an assumed response sink; the notification client is an assumed contract (SendChargingNotification); RechargePut's truncation of the rating group to int32 is not covered.")
 C["C14"] = ("Header round trip proved for every well-formed header (all fields, all release-identifier combinations, routeing filter and private extension of any length, no records) over the real Encoding contract and the real Decoding code; files with records: bounded stand-ins (exactly 1 and exactly 2 records, thorough tier), never counted as proved.",
@@ -46,7 +46,7 @@ C["C17"] = ("Second sentence of the property, as the precondition of the assumed
 C["C01"] = ("Bounded stand-ins (deductive, all values symbolic; never counted as proved): one credit-control step of one request with one rating group, one online used-unit container, no trigger and both peers answering conserves money - account balance + reservation held == the same sum before - unit cost x reported volume - in debit mode (final report: refund of the unused reservation or debit of the excess, reservation left 0) for every unit cost, and in reserve mode when the held reservation covers the usage at unit cost 1. Proved without bound: the CHF decodes the tariff to the unit cost the rating server applied (getUnitCost, integer tariffs), FindRatingGroup is an exact search. The account-balance and rating servers' own arithmetic is C07/C08.",
                "The peers' behaviour is restated from the server-side contracts as assumed clauses on the Diameter clients (ghost balance and tariff). Not decided and not claimed: conservation across a new reservation in reserve mode (undecided even at unit cost 1), symbolic unit cost in reserve mode (decided only up to cost 4 in about two minutes), several rating groups or containers per request, the history-long invariant, recharges, failure paths (a lost answer).")
 C["C06"] = ("Bounded stand-ins (same setting as C01, reserve mode at unit cost 1, all four scenarios: rating group known/new x reservation held/needed): after a reservation step the account balance is not negative, the granted volume is at most what the money available buys - min(price of the requested volume, money held for the rating group) / unit cost - and the response entry carries final-unit action TERMINATE exactly when the account cannot cover the reservation the request needs. In debit mode the reservation ends at 0. The server side (grant == min(requested, balance), final-unit indication iff short) is proved without bound in C07.",
-               "Found and repaired with this clause: the full requested volume was granted whatever the account could reserve (fix dd053e2). Not claimed: requests with several rating groups (the aliasing of C06-m1 needs two), symbolic unit cost, several rating groups per request, 'never negative' over a whole history.")
+               "Found and repaired with this clause: the full requested volume was granted whatever the account could reserve (fix dd053e2). Several rating groups per request: proved without bound that a later rating group's iteration does not alter the final-unit action already put into an earlier response entry (loop-preserved clause on sessionChargingReservation, catches the aliasing of C06-m1); the arithmetic itself is bounded to one rating group per request. Not claimed: symbolic unit cost, 'never negative' over a whole history.")
 
 NA = {
  "C19": "Matching late answers to requests is a timing/ordering property of channels and goroutines (select with time.After, per-subscriber channel shared across requests); govc models sequential code only.",
